@@ -5,13 +5,18 @@ import (
 	"encoding/hex"
 	"encoding/json"
 	"fmt"
+	"path/filepath"
+	"sort"
 	"strings"
 
 	"github.com/corestario/kyber/pairing"
 	"github.com/corestario/kyber/pairing/bls12381"
 	"github.com/corestario/kyber/sign/tbls"
 
+	"github.com/lidofinance/dc4bc/client/modules/state"
+	sigrepo "github.com/lidofinance/dc4bc/client/repositories/signature"
 	ctypes "github.com/lidofinance/dc4bc/client/types"
+	"github.com/lidofinance/dc4bc/dkg"
 	fsmtypes "github.com/lidofinance/dc4bc/fsm/types"
 	"github.com/lidofinance/dc4bc/fsm/types/requests"
 	"github.com/lidofinance/dc4bc/pkg/utils"
@@ -281,6 +286,7 @@ func scenarioC03(c *Ctx) {
 				}
 			}
 			exported, err := utils.PrepareSignaturesToDump(st[batch])
+			c.Case("export-stored", true, exportRawLine(st[batch]), exportObs(exported, err))
 			if err == nil {
 				for id, e := range *exported {
 					if want, ok := last[id]; ok && (!bytes.Equal(e.Payload, want.Payload) || e.File != want.File) {
@@ -291,4 +297,140 @@ func scenarioC03(c *Ctx) {
 		}
 		c.Case("path", true, "skip c03-batch-"+batch, "skip c03-batch-"+batch)
 	}
+	c03Export(c, fail)
+}
+
+// exportRawLine / exportObs: a stored batch and what the real export function makes of it, in the
+// model's terms (Node/Export.v export_batch); message ids in token order
+func exportRawLine(b map[string][]fsmtypes.ReconstructedSignature) string {
+	ids := make([]string, 0, len(b))
+	for id := range b {
+		ids = append(ids, id)
+	}
+	sort.Slice(ids, func(i, j int) bool { return tok.Tok(ids[i]) < tok.Tok(ids[j]) })
+	var sb strings.Builder
+	fmt.Fprintf(&sb, "exportraw %d", len(ids))
+	for _, id := range ids {
+		fmt.Fprintf(&sb, " %d %d", tok.Tok(id), len(b[id]))
+		for _, e := range b[id] {
+			fmt.Fprintf(&sb, " %d %d %d", tok.TokB(e.SrcPayload), tok.TokB(e.Signature), tok.Tok(e.File))
+		}
+	}
+	return sb.String()
+}
+
+func exportObs(exported *dkg.ExportedSignatures, err error) string {
+	if err != nil {
+		return "export refused"
+	}
+	type row struct{ id, p, s, f int }
+	var rows []row
+	for id, e := range *exported {
+		rows = append(rows, row{tok.Tok(id), tok.TokB(e.Payload), tok.TokB(e.Signature), tok.Tok(e.File)})
+	}
+	sort.Slice(rows, func(i, j int) bool { return rows[i].id < rows[j].id })
+	var parts []string
+	for _, r := range rows {
+		parts = append(parts, fmt.Sprintf("%d:%d:%d:%d", r.id, r.p, r.s, r.f))
+	}
+	return "export " + strings.Join(parts, ",")
+}
+
+// (C) the signature repository and the export on their own: random sequences of saves (stubs of a
+// proposer, reconstructions of the others and of the proposer, re-sent ones, other batches) go
+// through the real repository on a real state store, then GetSignaturesByBatchID +
+// PrepareSignaturesToDump, against fold add_sig + export_batch of the model; and the oracle of the
+// property: as long as the proposer's own entry carries the proposed payload, so does the export
+func c03Export(c *Ctx, fail func(kind, what string, rep map[string]interface{})) {
+	n := 60
+	if !c.Quick() {
+		n = 600
+	}
+	dir := newEnvDir(c)
+	for k := 0; k < n; k++ {
+		st, err := state.NewLevelDBState(filepath.Join(dir, fmt.Sprintf("export-%d", k)), "c03export")
+		if err != nil {
+			panic(err)
+		}
+		repo := sigrepo.NewSignatureRepo(st)
+		round := "round-export"
+		users := []string{"P", "B", "C", "D"}
+		nids := 1 + c.Rng.Intn(4)
+		batches := []string{"batch-x", "batch-y"}
+		proposed := map[string][]byte{}
+		var sb strings.Builder
+		count := 0
+		save := func(l []fsmtypes.ReconstructedSignature) {
+			if err := repo.SaveSignatures(l); err != nil {
+				panic(err)
+			}
+			for _, e := range l {
+				fmt.Fprintf(&sb, " %d %d %d %d %d %d", tok.Tok(e.BatchID), tok.Tok(e.MessageID), tok.TokB(e.SrcPayload), tok.TokB(e.Signature), tok.Tok(e.File), tok.Tok(e.Username))
+				count++
+			}
+		}
+		// the proposals' stubs
+		for _, b := range batches {
+			var l []fsmtypes.ReconstructedSignature
+			for i := 0; i < nids; i++ {
+				id := fmt.Sprintf("m%d", i)
+				pl := []byte(fmt.Sprintf("payload-%s-%d-%d", b, i, c.Rng.Intn(3)))
+				proposed[b+"/"+id] = pl
+				l = append(l, fsmtypes.ReconstructedSignature{File: "f" + id, BatchID: b, MessageID: id, SrcPayload: pl, Username: "P", DKGRoundID: round})
+			}
+			save(l)
+			if c.Rng.Intn(3) == 0 {
+				break
+			}
+		}
+		// reconstruction broadcasts, any sender, any order, some repeated
+		honest := true
+		for j, nb := 0, c.Rng.Intn(10); j < nb; j++ {
+			u := users[c.Rng.Intn(len(users))]
+			b := batches[c.Rng.Intn(len(batches))]
+			var l []fsmtypes.ReconstructedSignature
+			for i := 0; i < nids; i++ {
+				if c.Rng.Intn(5) == 0 {
+					continue
+				}
+				id := fmt.Sprintf("m%d", i)
+				pl := proposed[b+"/"+id]
+				if pl == nil {
+					pl = []byte("payload-of-an-unproposed-batch")
+				}
+				if u != "P" && c.Rng.Intn(4) == 0 {
+					pl = []byte("another-payload-from-" + u) // a participant other than the proposer lies
+				}
+				l = append(l, fsmtypes.ReconstructedSignature{File: "f" + id, BatchID: b, MessageID: id, SrcPayload: pl,
+					Signature: []byte(fmt.Sprintf("sig-%s-%s-%d", b, id, c.Rng.Intn(2))), Username: u, DKGRoundID: round})
+			}
+			if len(l) > 0 {
+				save(l)
+			}
+		}
+		for _, b := range append(batches, "batch-unknown") {
+			if b == "batch-unknown" && k%10 != 0 {
+				continue
+			}
+			got, err := repo.GetSignaturesByBatchID(round, b)
+			if err != nil {
+				panic(err)
+			}
+			exported, eerr := utils.PrepareSignaturesToDump(got)
+			c.Case("export", count > nids, fmt.Sprintf("export %d %d%s", tok.Tok(b), count, sb.String()), exportObs(exported, eerr))
+			if eerr == nil && honest {
+				for id, e := range *exported {
+					if want := proposed[b+"/"+id]; want != nil && !bytes.Equal(e.Payload, want) {
+						fail("exported-other-bytes", fmt.Sprintf("the exported payload of %q is not the proposed one although the proposer never sent another", id),
+							map[string]interface{}{"case": fmt.Sprintf("export %d %d%s", tok.Tok(b), count, sb.String())})
+					}
+				}
+			}
+		}
+		st.VerifClose()
+	}
+	// a batch with a message id that has no entry at all is refused
+	raw := map[string][]fsmtypes.ReconstructedSignature{"m0": {{File: "f", MessageID: "m0", SrcPayload: []byte("p"), Signature: []byte("s")}}, "m1": {}}
+	exported, err := utils.PrepareSignaturesToDump(raw)
+	c.Case("export-stored", true, exportRawLine(raw), exportObs(exported, err))
 }
